@@ -207,46 +207,58 @@ def r3_exactly_one_feedback(ctx, sym):
                   "%s is reported by %s, which describes another exception class" % (exc_name, cls_name),
                   "student code raising %s gets the explanation of a different error" % exc_name,
                   construct="%s: %s" % (exc_name, cls_name))
-    # dispatch expression
-    defs = {}
-    for n in body_walk(fn):
-        if isinstance(n, ast.Assign) and len(n.targets) == 1:
-            defs[norm(n.targets[0])] = n
-    g = CFG(fn)
-    disp = [n for n in body_walk(fn) if isinstance(n, ast.Assign) and isinstance(n.value, ast.Call)
-            and norm(n.value.func) == 'EXCEPTION_FF_MAP.get']
-    ok = len(disp) == 1 and len(disp[0].value.args) == 2 and norm(disp[0].value.args[0]) == 'type(self.exception)' \
-        and norm(disp[0].value.args[1]) == 'runtime_error'
-    ctx.check(ok, 'R3', '_capture_exception:dispatch', mod, disp[0] if disp else fn,
-              "the feedback class is not EXCEPTION_FF_MAP.get(type(self.exception), runtime_error)",
-              "an exception class outside the map gets no (or a wrong) feedback")
-    if ok:
-        var = norm(disp[0].targets[0])
-        ctor = g.nodes_calling(lambda c: isinstance(c.func, ast.Name) and c.func.id == var)
-        okc = len(ctor) == 1 and g.exit.id not in g.reachable([g.entry], ctor) \
-            and ctor[0].id not in g.successors_avoiding(ctor[0], [])
-        ctx.check(okc, 'R3', '_capture_exception:one-constructor-call', mod, fn,
-                  "the runtime feedback constructor is not called exactly once on every path",
-                  "zero or two runtime feedbacks for one failure")
-        if ctor:
-            c = [c for c in g.own_calls(ctor[0]) if isinstance(c.func, ast.Name) and c.func.id == var][0]
-            ctx.check(norm(kw(c, 'exception')) == 'self.exception' and norm(kw(c, 'report')) == 'self.report',
-                      'R3', '_capture_exception:args', mod, c,
-                      "the feedback is not built from self.exception / attached to the sandbox's report",
-                      "the feedback describes another exception or lands in another report")
-            ctx.check(norm(kw(c, 'location')) == 'traceback.line_number', 'R3', '_capture_exception:location', mod, c,
+    # _capture_exception executed abstractly with marker objects: one runtime feedback per failure, of the class
+    # the table gives for the exception's type (runtime_error otherwise), built from the stored exception
+    from .. import symexec
+    from ..fdeval import Obj
+    for mapped, filename in ((True, 'answer.py'), (False, 'answer.py'), (False, 'on_run.py'),
+                             (True, '_instructor.call_1.py')):
+        rec = symexec.Recorder()
+        line_no = symexec.marker('traceback.line_number')
+        submission = Obj('submission', instructor_file='on_run.py', line_offsets={}, main_file='answer.py',
+                         files={'answer.py': 'x'})
+        symexec.method(submission, 'get_files_lines', lambda: {'answer.py': ['x']})
+        symexec.method(submission, 'get_lines', lambda: ['x'])
+        report = Obj('report', submission=submission)
+        me = symexec.self_obj(mod, 'Sandbox', report=report, full_traceback=False, exception=None, feedback=None)
+        symexec.method(me, 'get_context', rec.stub('get_context', ret=Obj('context')))
+        caught = Obj('caught-exception', feedback=None)
+        improved = Obj('improved-exception', feedback=None)
+        tb_obj = Obj('traceback', line_number=line_no)
+        generic = rec.stub('runtime_error', ret=Obj('generic-feedback'))
+        specific = rec.stub('specific_error', ret=Obj('specific-feedback'))
+        fd = symexec.new_fd(sym, mod, calls={
+            'improve_builtin_exceptions': rec.stub('improve', fn=lambda e: improved if e is caught else e),
+            'ExpandedTraceback': rec.stub('ExpandedTraceback', ret=tb_obj),
+            'type': lambda o: 'type-of:' + getattr(o, '_name', repr(o)),
+            'runtime_error': generic,
+        }, extra={'EXCEPTION_FF_MAP': {'type-of:improved-exception': specific} if mapped else {},
+                  'runtime_error': generic})
+        _, raised = symexec.run(fd, fn, [caught, ('T', caught, 'tb'), 'x', filename], bound_self=me,
+                                what='Sandbox._capture_exception')
+        tag = '[exception class %s the map, file %s]' % ('in' if mapped else 'not in', filename)
+        built = rec.named('specific_error') + rec.named('runtime_error')
+        want = 'specific_error' if mapped else 'runtime_error'
+        ctx.check(raised is None and len(built) == 1 and built[0][0] == want, 'R3',
+                  '_capture_exception:one-constructor-call' + tag, mod, fn,
+                  "for an exception %s EXCEPTION_FF_MAP, %d runtime feedback(s) are constructed (%s)%s; expected "
+                  "exactly one %s" % ('in' if mapped else 'outside', len(built), [b[0] for b in built],
+                                      '' if raised is None else '; raises ' + raised.kind, want),
+                  "zero or two runtime feedbacks for one failure, or the wrong explanation")
+        if raised is None and len(built) == 1:
+            k = built[0][2]
+            ctx.check(k.get('exception') is improved and k.get('report') is report and
+                      me.attrs.get('exception') is improved, 'R3', '_capture_exception:args' + tag, mod, fn,
+                      "the feedback is not built from the stored (improved) exception and the sandbox's own report",
+                      "the feedback describes another exception or lands in another report; sandbox.exception does "
+                      "not hold the failure")
+            ctx.check(k.get('location') is line_no and k.get('traceback') is tb_obj, 'R3',
+                      '_capture_exception:location' + tag, mod, fn,
                       "location= is not the traceback's own line number", "the error is located on a wrong line")
-            # self.exception assigned before the constructor on all paths
-            assigns = g.nodes_where(lambda n: isinstance(n.ast, ast.Assign) and n.kind == 'stmt'
-                                    and any(is_self_attr(t, 'exception') for t in n.ast.targets))
-            ctx.check(bool(assigns) and g.dominates(assigns, ctor[0]), 'R3', '_capture_exception:stores-exception',
-                      mod, fn, "self.exception is not assigned before the feedback is built",
-                      "sandbox.exception does not hold the failure")
-            first = assigns[0].ast.value if assigns else None
-            ctx.check(first is not None and (norm(first) in ('exception', 'improve_builtin_exceptions(exception)')),
-                      'R3', '_capture_exception:exception-provenance', mod, assigns[0].ast if assigns else fn,
-                      "self.exception is not (an improved copy of) the caught exception",
-                      "sandbox.exception is some other object")
+            ctx.check(me.attrs.get('feedback') is not None and getattr(me.attrs.get('exception'), 'attrs', {}).get(
+                'feedback') is me.attrs.get('feedback'), 'R3', '_capture_exception:records-feedback' + tag, mod, fn,
+                      "the constructed feedback is not stored on the sandbox and on the exception",
+                      "sandbox.feedback is None after a failure")
     # location provenance: traceback.line_number is the raising line of the last traceback entry
     from .c17 import line_number_provenance
     ux = ctx.repo.module('pedal.utilities.exceptions')
